@@ -124,7 +124,7 @@ func init() {
 		Probes:      []string{"failed-decode-mid-history", "initial-decode-rejected-by-both"},
 		FaultKinds:  []string{"failed-decode", "denormalised-wire", "scribble"},
 		Quick:       plan{Builds: []buildCfg{{Race: false, Share: 1}}, Secs: 30},
-		Thorough:    plan{Builds: []buildCfg{{Race: false, Share: 3}, {Race: false, Tags: []string{"protoopaque"}, Share: 2}, {Race: true, Share: 1}}, Secs: 900},
+		Thorough:    plan{Builds: []buildCfg{{Race: false, Share: 3}, {Race: false, Tags: []string{"protoopaque"}, Share: 2}, {Race: false, Tags: []string{"protolegacy"}, Share: 2}, {Race: true, Share: 1}}, Secs: 900},
 	}
 }
 
